@@ -495,22 +495,44 @@ Proof.
   apply bind_ok in H as (a & _ & H). injection H as _ <-. eapply pev_shorter; eassumption.
 Qed.
 
-Lemma tbl_next_safe : forall dbg hb h st, asz_ok (h_asz h) -> safe (tbl_next dbg hb h st).
+Lemma tbl_row_safe : forall dbg hb h t, asz_ok (h_asz h) ->
+  safe (let* (from, t1) := parse_encoded_pointer dbg (h_be h) (h_enc h) (hdr_pp hb h) t in
+        let* (to, t2) := parse_encoded_pointer dbg (h_be h) (h_enc h) (hdr_pp hb h) t1 in
+        Ok ((from, to), t2)).
 Proof.
-  intros dbg hb h [t remain] Hasz. unfold tbl_next.
-  apply safe_if; [apply safe_ok|].
+  intros dbg hb h t Hasz.
   apply safe_bind; [apply pep_safe; exact Hasz|]. intros [from t1] _.
   apply safe_bind; [apply pep_safe; exact Hasz|]. intros [to t2] _. apply safe_ok.
 Qed.
 
+Lemma tbl_next_safe : forall dbg hb h st, asz_ok (h_asz h) -> safe (tbl_next dbg hb h st).
+Proof.
+  intros dbg hb h [t remain] Hasz. unfold tbl_next.
+  apply safe_if; [apply safe_ok|].
+  pose proof (tbl_row_safe dbg hb h t Hasz) as [H1 H2].
+  destruct (let* (from, t1) := _ in _) as [[row t2]|e| |]; try congruence; apply safe_ok.
+Qed.
+
 Lemma tbl_next_shorter : forall dbg hb h t remain row t2 remain2, asz_ok (h_asz h) ->
-  tbl_next dbg hb h (t, remain) = Ok (Some row, (t2, remain2)) -> (length (win t2) < length (win t))%nat.
+  tbl_next dbg hb h (t, remain) = Ok (SSome row, (t2, remain2)) -> (length (win t2) < length (win t))%nat.
 Proof.
   intros dbg hb h t remain row t2 remain2 Hasz H. unfold tbl_next in H.
   destruct (remain =? 0); [discriminate|].
-  apply bind_ok in H as ([from t1] & H1 & H). apply pep_shorter in H1; [|exact Hasz].
-  apply bind_ok in H as ([to t2'] & H2 & H). apply pep_shorter in H2; [|exact Hasz].
-  injection H as _ <- _. lia.
+  destruct (let* (from, t1) := _ in _) as [[row0 t20]|e| |] eqn:E; try discriminate.
+  injection H as _ <- _.
+  apply bind_ok in E as ([from t1] & H1 & E). apply pep_shorter in H1; [|exact Hasz].
+  apply bind_ok in E as ([to t2'] & H2 & E). apply pep_shorter in H2; [|exact Hasz].
+  injection E as _ <-. lia.
+Qed.
+
+(* after a row error the iterator is exhausted *)
+Lemma tbl_next_stops : forall dbg hb h st e st', tbl_next dbg hb h st = Ok (SErr e, st') ->
+  tbl_next dbg hb h st' = Ok (SNone, st').
+Proof.
+  intros dbg hb h [t remain] e st' H. unfold tbl_next in H.
+  destruct (remain =? 0); [discriminate|].
+  destruct (let* (from, t1) := _ in _) as [[row0 t20]|e0| |]; try discriminate.
+  injection H as _ <-. reflexivity.
 Qed.
 
 Lemma tbl_all_loop_safe : forall fuel dbg hb h t remain, asz_ok (h_asz h) ->
@@ -518,10 +540,9 @@ Lemma tbl_all_loop_safe : forall fuel dbg hb h t remain, asz_ok (h_asz h) ->
 Proof.
   induction fuel as [|f IH]; intros dbg hb h t remain Hasz Hf; [lia|].
   cbn [tbl_all_loop].
-  pose proof (tbl_next_safe dbg hb h (t, remain) Hasz) as [Hs1 Hs2].
-  destruct (tbl_next dbg hb h (t, remain)) as [[o [t2 remain2]]|e| |] eqn:E; try congruence; auto with safe.
-  destruct o as [row|]; [|apply safe_ok].
-  apply tbl_next_shorter in E; [|exact Hasz].
+  apply safe_bind; [apply tbl_next_safe; exact Hasz|]. intros [s [t2 remain2]] Hs.
+  destruct s as [|row|e]; auto with safe.
+  apply tbl_next_shorter in Hs; [|exact Hasz].
   apply safe_bind; [apply IH; [exact Hasz|lia]|]. intros [l e] _. apply safe_ok.
 Qed.
 
@@ -532,7 +553,7 @@ Proof. intros. unfold tbl_all. apply tbl_all_loop_safe; [assumption|lia]. Qed.
 Lemma lookup_loop_S' : forall f dbg hb h row_size address len reader,
   lookup_loop (S f) dbg hb h row_size address len reader =
   if len <=? 1 then Ok reader else
-  let* k := chk_mul 64 dbg (len / 2) row_size in
+  let* k := (if two64 <=? len / 2 * row_size then Err EUnexpectedEof else Ok (len / 2 * row_size)) in
   let* (head, tail) := rd_split k reader in
   let* (p, _) := parse_encoded_pointer dbg (h_be h) (h_enc h) (hdr_pp hb h) tail in
   let* pivot := pointer_direct p in
@@ -541,54 +562,42 @@ Lemma lookup_loop_S' : forall f dbg hb h row_size address len reader,
   else lookup_loop f dbg hb h row_size address (len / 2) head.
 Proof. reflexivity. Qed.
 
-(* the overflow of `(len / 2) * row_size` is the only way the loop can panic *)
+(* the loop halves len: it returns within log2(len)+1 steps on every table, sorted or not, and
+   has no panic site left *)
 Lemma lookup_loop_safe : forall k dbg hb h row a len reader,
   asz_ok (h_asz h) -> len <= 2 ^ N.of_nat k ->
-  (dbg = false \/ len * row < 2 ^ 64) ->
   safe (lookup_loop (S k) dbg hb h row a len reader).
 Proof.
-  induction k as [|k IH]; intros dbg hb h row a len reader Hasz Hlen Hmul; rewrite lookup_loop_S'.
+  induction k as [|k IH]; intros dbg hb h row a len reader Hasz Hlen; rewrite lookup_loop_S'.
   - change (2 ^ N.of_nat 0) with 1 in Hlen. destruct (len <=? 1) eqn:E; [apply safe_ok|lia].
   - destruct (len <=? 1) eqn:E; [apply safe_ok|].
     rewrite Nat2N.inj_succ, N.pow_succ_r' in Hlen.
-    apply safe_bind.
-    { unfold chk_mul. destruct (len / 2 * row <? 2 ^ 64) eqn:Em; [apply safe_ok|].
-      destruct Hmul as [->|Hmul]; [apply safe_ok|]. exfalso. nia. }
+    apply safe_bind; [apply safe_if; auto with safe|].
     intros kk _. apply safe_bind; [apply rd_split_safe|]. intros [head tail] _.
     apply safe_bind; [apply pep_safe; exact Hasz|]. intros [p q] _.
     apply safe_bind; [destruct p; cbn [pointer_direct]; auto with safe|]. intros pivot _.
     apply safe_if; [apply safe_ok|].
-    apply safe_if; apply IH; try exact Hasz; try lia.
-    + destruct Hmul as [Hm|Hm]; [left; exact Hm|right; nia].
-    + destruct Hmul as [Hm|Hm]; [left; exact Hm|right; nia].
+    apply safe_if; apply IH; try exact Hasz; lia.
 Qed.
 
 Lemma pointer_direct_safe : forall p, safe (pointer_direct p).
 Proof. intros [a|a]; cbn [pointer_direct]; auto with safe. Qed.
 
-Lemma hdr_lookup_safe_lem : forall dbg hb h a,
-  asz_ok (h_asz h) ->
-  (dbg = false \/ forall size, tbl_field_size (h_enc h) = Some size -> h_count h * (size * 2) < 2 ^ 64) ->
-  safe (hdr_lookup dbg hb h a).
+Lemma hdr_lookup_safe_lem : forall dbg hb h a, asz_ok (h_asz h) -> safe (hdr_lookup dbg hb h a).
 Proof.
-  intros dbg hb h a Hasz Hmul. unfold hdr_lookup.
+  intros dbg hb h a Hasz. unfold hdr_lookup.
   destruct (tbl_field_size (h_enc h)) as [size|] eqn:Es; [|apply safe_err].
   apply safe_bind.
-  { unfold lookup_fuel. apply lookup_loop_safe; [exact Hasz|apply N.lt_le_incl, size_nat_gt|].
-    destruct Hmul as [Hm|Hm]; [left; exact Hm|right; apply Hm; reflexivity]. }
+  { unfold lookup_fuel. apply lookup_loop_safe; [exact Hasz|apply N.lt_le_incl, size_nat_gt]. }
   intros reader _. apply safe_bind; [apply rd_skip_safe|]. intros r1 _.
   apply safe_bind; [apply pep_safe; exact Hasz|]. intros [p q] _. apply safe_ok.
 Qed.
 
-(* pointer_to_offset: `ptr - eh_frame_ptr` underflows exactly when the row's address is below eh_frame_ptr *)
-Lemma pointer_to_offset_safe_lem : forall dbg h p,
-  (dbg = false \/ forall a e, p = Direct a -> h_ptr h = Direct e -> e <= a) -> safe (pointer_to_offset dbg h p).
+Lemma pointer_to_offset_safe_lem : forall dbg h p, safe (pointer_to_offset dbg h p).
 Proof.
-  intros dbg h p H. unfold pointer_to_offset.
-  destruct p as [a|a]; cbn [pointer_direct bind]; [|apply safe_err].
-  destruct (h_ptr h) as [e|e]; cbn [pointer_direct bind]; [|apply safe_err].
-  unfold chk_sub. destruct (e <=? a) eqn:E; [apply safe_ok|].
-  destruct H as [->|H]; [apply safe_ok|]. specialize (H a e eq_refl eq_refl). lia.
+  intros dbg h p. unfold pointer_to_offset.
+  apply safe_bind; [apply pointer_direct_safe|]. intros a _.
+  apply safe_bind; [apply pointer_direct_safe|]. intros e _. apply safe_if; auto with safe.
 Qed.
 
 Lemma pfde_from_offset_safe : forall c sec o, safe (pfde_from_offset c sec o).
@@ -605,15 +614,24 @@ Proof.
   apply fde_parse_safe. assumption.
 Qed.
 
-(* release builds: the whole header lookup path is total for every header, table and section *)
-Lemma hdr_fde_for_address_release_safe : forall hb h c sec a,
-  asz_ok (h_asz h) -> asz_ok (sc_asz c) -> safe (hdr_fde_for_address false hb h c sec a).
+(* the whole header lookup path is total for every header, table, section and address *)
+Lemma hdr_fde_for_address_safe_lem : forall dbg hb h c sec a,
+  asz_ok (h_asz h) -> asz_ok (sc_asz c) -> safe (hdr_fde_for_address dbg hb h c sec a).
 Proof.
-  intros hb h c sec a Hh Hc. unfold hdr_fde_for_address.
-  apply safe_bind; [apply hdr_lookup_safe_lem; [exact Hh|left; reflexivity]|]. intros p _.
-  apply safe_bind; [apply pointer_to_offset_safe_lem; left; reflexivity|]. intros o _.
+  intros dbg hb h c sec a Hh Hc. unfold hdr_fde_for_address.
+  apply safe_bind; [apply hdr_lookup_safe_lem; exact Hh|]. intros p _.
+  apply safe_bind; [apply pointer_to_offset_safe_lem|]. intros o _.
   apply safe_bind; [apply fde_from_offset_safe; exact Hc|]. intros fd Hfd.
   apply safe_bind; [apply fde_contains_safe|].
   - unfold fde_from_offset in Hfd. apply bind_ok in Hfd as (p0 & _ & Hfd). eapply fde_parse_asz; eassumption.
   - intros b _. destruct b; auto with safe.
+Qed.
+
+Lemma tbl_nth_safe_lem : forall dbg hb h n, asz_ok (h_asz h) -> safe (tbl_nth dbg hb h n).
+Proof.
+  intros dbg hb h n Hasz. unfold tbl_nth.
+  destruct (tbl_field_size (h_enc h)) as [size|]; [|apply safe_err].
+  apply safe_if; [apply safe_err|].
+  apply safe_bind; [apply rd_skip_safe|]. intros t _.
+  apply safe_bind; [apply tbl_next_safe; exact Hasz|]. intros [s st] _. destruct s; auto with safe.
 Qed.
